@@ -11,7 +11,7 @@ RULE += (' Size guards with CR/LF at the limit; decoded results kept while other
 ASSUME = [common.TRUSTED, "trailing padding bits of a final character are not required to be zero (RFC 4648 non-strict), as in the reference decoder"]
 META = {
     "level": "model_checking",
-    "technique": "bit-level base32/base64 in TLA+ (Text.tla) model-checked exhaustively as inverse pairs with strict alphabets; TLC-computed inputs replayed into every encoder/decoder variant; outputs and accept/reject sets validated by TLC",
+    "technique": "bit-level base32/base64 in TLA+ (Text.tla) model-checked exhaustively as inverse pairs with strict alphabets; TLC-computed inputs replayed into every encoder/decoder variant; outputs and accept/reject sets validated by TLC; heap machine MC_Fresh (recycled-buffer negative control) behind the kept-result chains, plain and line-wrapped text side by side",
     "text": ("The reference encodings are defined by 5-/6-bit regrouping, independent of encoding/base32|64, and model-checked over all byte "
              "strings up to length 2 (and a 9-symbol alphabet to length 5-6). The library's outputs must equal the reference for every string "
              "of length <= 2 and every sampled longer one; each decoder's accepted byte set at a position must equal the reference's for all 256 "
@@ -21,6 +21,8 @@ META = {
 
 
 def check(run):
+    # who owns the memory behind a result: the machine behind the kept-result chains, the "again" twins and the edited struct copies
+    common.mc_fresh(run, controls=("pool",))
     t = run.tier == "thorough"
     run.mc("MC_Text", consts={"MaxLen": 2, "FullAlpha": True}, invariants=["Inverse", "Shape", "DecoderStrict"], tag="MC_Text_full2")
     run.mc("MC_Text", consts={"MaxLen": 6 if t else 5, "FullAlpha": False}, invariants=["Inverse", "Shape", "DecoderStrict"], tag="MC_Text_alpha")
